@@ -1,6 +1,6 @@
 #!/usr/bin/env python3
 """Function-level translator: the bodies of the small pure decision functions of /repo's Rust source
-are re-translated on every run into Lean definitions (lean/Compass/Gen/Fns.lean, generated, never
+are re-translated on every run into Lean definitions (lean/Compass/Gen/Fns<prop>.lean, one file per owning property, generated, never
 hand-edited).  For each one a theorem `gen_<fn>_eq` in the owning property file proves that the generated
 definition equals the hand-written model function the property theorems are about; a source change to
 such a function changes the generated definition and that proof stops checking.
@@ -29,7 +29,7 @@ import re
 from fractions import Fraction
 
 HERE = os.path.dirname(os.path.abspath(__file__))
-OUT = os.environ.get("GEN_FNS_OUT", os.path.join(os.path.dirname(HERE), "lean", "Compass", "Gen", "Fns.lean"))
+OUT_DIR = os.path.join(os.path.dirname(HERE), "lean", "Compass", "Gen")
 
 
 class NotRecognised(Exception):
@@ -425,6 +425,8 @@ def canon(e):
         return f"{canon(e[1])}({', '.join(canon(a) for a in e[2])})"
     if k == "tuple":
         return "(" + ", ".join(canon(a) for a in e[1]) + ")"
+    if k == "cast":
+        return f"{canon(e[1])} as {e[2][0]}"
     return "?"
 
 
@@ -517,7 +519,7 @@ def find_fn(toks, impl, fn):
             while toks[j][1] != "{":
                 hdr.append(toks[j][1])
                 j += 1
-            if hdr == [impl]:
+            if hdr == [impl] or " ".join(hdr) == impl:
                 in_impl = 0
             i = j
             continue
@@ -563,6 +565,10 @@ def parse_fn(toks, impl, fn):
 
 # ---------------------------------------------------------------------------------------------------
 # configuration: what the Rust names mean in the model
+CORE = "rust/routee-compass-core/src"
+PT = "rust/routee-compass-powertrain/src"
+APP = "rust/routee-compass/src"
+
 UNSIGNED = {"usize": 64, "u64": 64, "u32": 32, "u16": 16, "u8": 8}
 SIGNED = {"isize": 64, "i64": 64, "i32": 32, "i16": 16, "i8": 8}
 NUMTYPES = {"f64", "Cost", "StateVar", "Distance", "Time", "Speed", "Energy", "EnergyRate", "Grade", "Weight",
@@ -572,13 +578,30 @@ LEAN_KEYWORDS = {"fun", "from", "end", "at", "open", "in", "then", "else", "if",
                  "section", "variable", "import", "Type", "Prop", "Sort", "this", "calc", "using", "deriving", "mutual",
                  "xs_", "rest_", "acc_", "self_"}
 
+# unit enums (generated in Gen/Units.lean, `convert` in Model/Units.lean)
+UNITS = {"DistanceUnit", "TimeUnit", "SpeedUnit", "EnergyUnit", "GradeUnit", "WeightUnit"}
+UNIT_CONSTS = {"BASE_DISTANCE_UNIT": ("baseDistanceUnit", "DistanceUnit"), "BASE_TIME_UNIT": ("baseTimeUnit", "TimeUnit"),
+               "BASE_SPEED_UNIT": ("baseSpeedUnit", "SpeedUnit")}
 # identifier newtypes over usize (`EdgeId(pub usize)`): Nat, compared only
 IDTYPES = {"EdgeId", "VertexId"}
 # structs that the model represents by one of their fields: a value of the struct *is* that field
-STRUCTS = {"Edge": dict(lean="Nat", field="edge_id", field_type="EdgeId")}
+# (fields: Rust field -> (projection applied to the Lean value, Rust type); fields not listed are not representable)
+STRUCTS = {
+    "Edge": dict(lean="Nat", fields={"edge_id": ("", ("EdgeId", []))}),
+    # the model's `Int × Option Int`: (arrival heading, optional departure heading)
+    # `VehicleParams α` of Model/Instance.lean; `number_of_axles` is held as the number `number_of_axles as f64`
+    "VehicleParameters": dict(lean="(VehicleParams α)", poly=True, imp="Compass.Model.Instance",
+                              file=APP + "/app/compass/config/frontier_model/vehicle_restrictions/vehicle_parameters.rs",
+                              fields={"height": (".height", ("(tuple)", [("Distance", []), ("DistanceUnit", [])])),
+                                      "width": (".width", ("(tuple)", [("Distance", []), ("DistanceUnit", [])])),
+                                      "total_length": (".totalLength", ("(tuple)", [("Distance", []), ("DistanceUnit", [])])),
+                                      "trailer_length": (".trailerLength", ("(tuple)", [("Distance", []), ("DistanceUnit", [])])),
+                                      "total_weight": (".totalWeight", ("(tuple)", [("Weight", []), ("WeightUnit", [])])),
+                                      "number_of_axles": (None, ("u8", []))}),
+    "EdgeHeading": dict(lean="(Int × Option Int)", file=CORE + "/model/access/default/turn_delays/edge_heading.rs",
+                        fields={"arrival_heading": (".1", ("i16", [])), "departure_heading": (".2", ("Option", [("i16", [])]))}),
+}
 
-CORE = "rust/routee-compass-core/src"
-PT = "rust/routee-compass-powertrain/src"
 
 # Rust enum -> the model's inductive type.  variants: Rust variant -> (Lean constructor, positional arguments);
 # an argument is a Rust field name (tuple variants: "0", "1", …) or "+name:type" for an argument only the
@@ -611,23 +634,59 @@ ENUMS = {
 
 # functions, in the order of the generated file
 FUNCS = [
-    dict(file=CORE + "/model/termination/termination_model.rs", impl="TerminationModel", fn="terminate_search",
+    dict(file=CORE + "/model/termination/termination_model.rs", impl="TerminationModel", fn="terminate_search", owner="C10",
          drop=["start_time"],
          # the elapsed time is the model's virtual clock `baseNs + perNs * iteration` (the harness's
          # `verif_clock`; in production it is the wall clock, an input the model does not have)
          externs={"Instant::now().duration_since(*start_time)": ("(baseNs + perNs * iteration)", "Duration"),
                   "verif_clock::elapsed(iteration).unwrap_or(dur)": ("(baseNs + perNs * iteration)", "Duration")}),
-    dict(file=CORE + "/algorithm/search/ksp/ksp_termination_criteria.rs", impl="KspTerminationCriteria", fn="terminate_search"),
-    dict(file=CORE + "/model/cost/cost_aggregation.rs", impl="CostAggregation", fn="agg"),
-    dict(file=CORE + "/model/cost/vehicle/vehicle_cost_rate.rs", impl="VehicleCostRate", fn="map_value"),
-    dict(file=CORE + "/model/unit/cost.rs", impl="Cost", fn="enforce_strictly_positive"),
-    dict(file=CORE + "/model/unit/cost.rs", impl="Cost", fn="enforce_non_negative"),
+    dict(file=CORE + "/algorithm/search/ksp/ksp_termination_criteria.rs", impl="KspTerminationCriteria", fn="terminate_search", owner="C13"),
+    dict(file=CORE + "/model/cost/cost_aggregation.rs", impl="CostAggregation", fn="agg", owner="C07"),
+    dict(file=CORE + "/model/cost/vehicle/vehicle_cost_rate.rs", impl="VehicleCostRate", fn="map_value", owner="C07"),
+    dict(file=CORE + "/model/unit/cost.rs", impl="Cost", fn="enforce_strictly_positive", owner="C07"),
+    dict(file=CORE + "/model/unit/cost.rs", impl="Cost", fn="enforce_non_negative", owner="C07"),
     # the two state variables are not looked at by the code (they are only handed on to the members)
-    dict(file=CORE + "/model/cost/network/network_cost_rate.rs", impl="NetworkCostRate", fn="traversal_cost",
+    dict(file=CORE + "/model/cost/network/network_cost_rate.rs", impl="NetworkCostRate", fn="traversal_cost", owner="C07",
          drop=["_prev_state_var", "_next_state_var"]),
-    dict(file=CORE + "/model/cost/network/network_cost_rate.rs", impl="NetworkCostRate", fn="access_cost",
+    dict(file=CORE + "/model/cost/network/network_cost_rate.rs", impl="NetworkCostRate", fn="access_cost", owner="C07",
          drop=["_prev_state_var", "_next_state_var"]),
+    # the two From impls `(d, s).into()` / `(d, t).into()` resolve to, then the constructors
+    dict(file=CORE + "/model/unit/time.rs", impl=None, impl_header="From < ( Distance , Speed ) > for Time", fn="from", owner="C09",
+         lean="Time_from_Distance_Speed", label="From<(Distance, Speed)> for Time", self_type="Time", into=(("Distance", "Speed"), "Time")),
+    dict(file=CORE + "/model/unit/speed.rs", impl=None, impl_header="From < ( Distance , Time ) > for Speed", fn="from", owner="C09",
+         lean="Speed_from_Distance_Time", label="From<(Distance, Time)> for Speed", self_type="Speed", into=(("Distance", "Time"), "Speed")),
+    dict(file=CORE + "/model/unit/builders.rs", impl=None, fn="create_time", owner="C09"),
+    dict(file=CORE + "/model/unit/builders.rs", impl=None, fn="create_speed", owner="C09"),
+    dict(file=CORE + "/model/access/default/turn_delays/edge_heading.rs", impl="EdgeHeading", fn="start_heading", owner="C03"),
+    dict(file=CORE + "/model/access/default/turn_delays/edge_heading.rs", impl="EdgeHeading", fn="end_heading", owner="C03"),
+    dict(file=CORE + "/model/access/default/turn_delays/edge_heading.rs", impl="EdgeHeading", fn="bearing_to_destination", owner="C03"),
+    # the model's `Restriction` is shaped differently (weight per-axle flag / length selector): one definition per arm
+    dict(file=APP + "/app/compass/config/frontier_model/vehicle_restrictions/vehicle_restriction.rs", impl="VehicleRestriction",
+         fn="valid", owner="C04", arms=True,
+         externs={"vehicle_parameters.number_of_axles as f64": ("vehicle_parameters.axles", "f64")}),
+    dict(file=PT + "/routee/vehicle/vehicle_ops.rs", impl=None, fn="as_soc_percent", owner="C08"),
+    dict(file=PT + "/routee/vehicle/vehicle_ops.rs", impl=None, fn="soc_from_battery_and_delta", owner="C08"),
 ]
+
+
+def const_int(e):
+    """value of a constant integer expression (literals, unary minus, iN::MIN / MAX, widening casts), else None"""
+    if e[0] == "int":
+        return int(re.match(r"[\d_]+", e[1]).group(0).replace("_", ""))
+    if e[0] == "unary" and e[1] == "-":
+        v = const_int(e[2])
+        return None if v is None else -v
+    if e[0] == "cast":
+        v = const_int(e[1])
+        to = e[2][0]
+        bits = SIGNED.get(to)
+        if v is not None and bits and -2 ** (bits - 1) <= v < 2 ** (bits - 1):
+            return v
+        return None
+    if e[0] == "path" and len(e[1]) == 2 and e[1][0] in SIGNED and e[1][1] in ("MIN", "MAX"):
+        b = SIGNED[e[1][0]]
+        return -2 ** (b - 1) if e[1][1] == "MIN" else 2 ** (b - 1) - 1
+    return None
 
 
 def dec_to_frac(lit):
@@ -648,6 +707,10 @@ def dec_to_frac(lit):
 # ---------------------------------------------------------------------------------------------------
 # printer.  Internal types: "usize"/"u64"/… , "i32"/… , "IntLit", "Num", "Bool", "String", "Duration",
 # ("List", t), ("Prod", [t…]), ("Enum", rust name), ("Opt", t)
+def is_num(t):
+    return isinstance(t, str) and t.startswith("Num:")
+
+
 def is_uint(t):
     return isinstance(t, str) and t in UNSIGNED
 
@@ -666,7 +729,11 @@ class Ctx:
         self.cfg, self.repo = cfg, repo
         self.fn = cfg["fn"]
         self.impl = cfg.get("impl")
-        self.lean_name = (self.impl + "_" if self.impl else "") + self.fn
+        self.impl_find = cfg.get("impl_header", self.impl)
+        self.lean_name = cfg.get("lean") or ((self.impl + "_" if self.impl else "") + self.fn)
+        self.into_table = {}
+        self.fn_table = {}
+        self.struct_checked = set()
         self.aliases = {"Self": self.impl} if self.impl else {}
         self.guards = []
         self.aux = []          # (name, text, recursive)
@@ -677,10 +744,16 @@ class Ctx:
     # --- types
     def conv_type(self, t):
         name, args = t
+        if name == "Self" and self.cfg.get("self_type"):
+            name = self.cfg["self_type"]
         if name in UNSIGNED or name in SIGNED:
             return name
-        if name in NUMTYPES:
-            return "Num"
+        if name == "OrderedFloat" and len(args) == 1 and args[0] == ("f64", []):
+            return "Num:f64"
+        if name in UNITS and not args:
+            return ("Unit", name)
+        if name in NUMTYPES and not args:
+            return "Num:" + name
         if name == "bool":
             return "Bool"
         if name in ("String", "str"):
@@ -691,6 +764,8 @@ class Ctx:
             return ("List", self.conv_type(args[0]))
         if name == "(tuple)" and len(args) >= 2:
             return ("Prod", [self.conv_type(a) for a in args])
+        if name == "Option" and len(args) == 1:
+            return ("Option", self.conv_type(args[0]))
         if name == "Result" and len(args) == 2:
             return ("Opt", self.conv_type(args[0]))
         if name in IDTYPES and not args:
@@ -709,9 +784,12 @@ class Ctx:
             return "Nat"
         if is_sint(t):
             return "Int"
-        if t == "Num":
+        if is_num(t):
             self.uses_alpha = True
             return "α"
+        if t[0] == "Unit":
+            self.imports.add("Compass.Model.Units")
+            return t[1]
         if t in ("Bool", "String"):
             return t
         if t[0] == "List":
@@ -719,10 +797,15 @@ class Ctx:
         if t[0] == "Map":
             return f"(List ({self.lean_type(t[1])} × {self.lean_type(t[2])}))"
         if t[0] == "Struct":
-            return STRUCTS[t[1]]["lean"]
+            st = STRUCTS[t[1]]
+            if st.get("imp"):
+                self.imports.add(st["imp"])
+            if st.get("poly"):
+                self.uses_alpha = True
+            return st["lean"]
         if t[0] == "Prod":
             return "(" + " × ".join(self.lean_type(x) for x in t[1]) + ")"
-        if t[0] == "Opt":
+        if t[0] in ("Opt", "Option"):
             return f"(Option {self.lean_type(t[1])})"
         if t[0] == "Enum":
             e = ENUMS[t[1]]
@@ -732,6 +815,34 @@ class Ctx:
                 return f"({e['lean']} α)"
             return e["lean"]
         refuse(f"no Lean type for {t}")
+
+    def struct_decl(self, name):
+        """the declared fields of a configured struct must be the configured ones, with the configured types"""
+        st = STRUCTS[name]
+        if "file" not in st or name in self.struct_checked:
+            return
+        with open(os.path.join(self.repo, st["file"])) as f:
+            toks = tokenize(f.read())
+        for i in range(len(toks) - 2):
+            if toks[i][1] == "struct" and toks[i + 1][1] == name and toks[i + 2][1] == "{":
+                P = Parser(toks, i + 3)
+                decl = {}
+                while True:
+                    skip_attrs(P)
+                    if P.eat("}"):
+                        break
+                    P.eat("pub")
+                    fname = P.ident()
+                    P.expect(":")
+                    decl[fname] = P.ty()
+                    if not P.eat(","):
+                        P.expect("}")
+                        break
+                if decl != {k: v[1] for k, v in st["fields"].items()}:
+                    refuse(f"struct {name}: declared fields differ from the model's")
+                self.struct_checked.add(name)
+                return
+        refuse(f"struct {name} not found")
 
     def enum_decl(self, name):
         """the declaration of a configured enum, checked against the variant table"""
@@ -795,6 +906,8 @@ class Ctx:
             return b
         if b == "IntLit" and (is_uint(a) or is_sint(a)):
             return a
+        if is_num(a) and is_num(b) and "Num:f64" in (a, b):
+            return b if a == "Num:f64" else a
         refuse(f"{what}: operand types {a} and {b}")
 
     def tr(self, e, env):
@@ -809,7 +922,7 @@ class Ctx:
         if k == "float":
             n, d = dec_to_frac(e[1])
             self.uses_alpha = True
-            return f"(Lit.lit {n} {d} : α)", "Num"
+            return f"(Lit.lit {n} {d} : α)", "Num:f64"
         if k == "bool":
             return ("true" if e[1] else "false"), "Bool"
         if k == "path":
@@ -821,7 +934,7 @@ class Ctx:
                 return x, t
             if op == "!" and t == "Bool":
                 return f"(!{x})", t
-            if op == "-" and (t == "Num" or is_sint(t)):
+            if op == "-" and (is_num(t) or is_sint(t) or t == "IntLit"):
                 return f"(-{x})", t
             refuse(f"unary {op} on {t}")
         if k == "cast":
@@ -833,15 +946,23 @@ class Ctx:
                 return x, to
             if is_sint(t) and is_sint(to) and SIGNED[to] >= SIGNED[t]:
                 return x, to
+            if is_sint(t) and is_sint(to):      # narrowing `as`: two's complement wrap-around
+                return f"(Int.bmod {x} {2 ** SIGNED[to]})", to
+            if is_uint(t) and is_uint(to):      # narrowing `as` of an unsigned integer: truncation
+                return f"({x} % {2 ** UNSIGNED[to]})", to
             refuse(f"cast {t} as {to}")
         if k == "binary":
             return self.tr_binary(e, env)
         if k == "field":
             x, t = self.tr(e[1], env)
-            if t == "Num" and e[2] == "0":
-                return x, t
-            if t[0] == "Struct" and e[2] == STRUCTS[t[1]]["field"]:
-                return x, STRUCTS[t[1]]["field_type"]
+            if is_num(t) and t != "Num:f64" and e[2] == "0":
+                return x, "Num:f64"
+            if t[0] == "Struct" and e[2] in STRUCTS[t[1]]["fields"]:
+                self.struct_decl(t[1])
+                suffix, ft = STRUCTS[t[1]]["fields"][e[2]]
+                if suffix is None:
+                    refuse(f"field {e[2]} of {t[1]} is not held by the model as such")
+                return x + suffix, self.conv_type(ft)
             refuse(f"field .{e[2]} of {t}")
         if k == "tuple" and len(e[1]) >= 2:
             xs = [self.tr(a, env) for a in e[1]]
@@ -858,7 +979,7 @@ class Ctx:
         if k == "block":
             return self.tr_block(e, env)
         if k == "match":
-            refuse("match outside tail position")
+            return self.tr_match_option(e, env, lambda x, en: self.no_guards(lambda: self.tr(x, en), "a match arm"))
         refuse(f"expression form `{k}` outside the subset")
 
     def tr_block(self, b, env):
@@ -881,6 +1002,9 @@ class Ctx:
             x, t = self.tr(rhs, env)
             if p[0] == "wild":
                 return ""
+            if p[0] == "tuple":
+                lp = self.bind_pat(p, t, env)
+                return f"let {lp} := {x}; "
             if p[0] != "bind":
                 refuse("let with a destructuring pattern")
             env[p[1]] = t
@@ -888,22 +1012,32 @@ class Ctx:
         refuse("statement")
 
     def tr_path(self, segs, env):
-        if len(segs) == 1:
+        if len(segs) == 1 and segs[0] not in env and segs[0] in UNIT_CONSTS:
+            pass
+        elif len(segs) == 1:
             n = segs[0]
             if n in env:
                 return self.name(n), env[n]
             if n == "self":
                 refuse("self outside a match")
             refuse(f"unknown name {n}")
+        if len(segs) == 2 and segs[0] in SIGNED and segs[1] in ("MIN", "MAX"):
+            return f"({const_int(('path', segs))})", segs[0]
         if len(segs) == 2 and segs[0] in NUMTYPES:
             self.uses_alpha = True
             if segs[1] == "ZERO":
-                return "(Compass.zero : α)", "Num"
+                return "(Compass.zero : α)", "Num:" + segs[0]
             if segs[1] == "ONE":
-                return "(Compass.one : α)", "Num"
+                return "(Compass.one : α)", "Num:" + segs[0]
             if segs == ["Cost", "MIN_COST"]:
                 self.imports.add("Compass.Gen.Consts")
-                return "(Lit.lit minCostLit.1 minCostLit.2 : α)", "Num"
+                return "(Lit.lit minCostLit.1 minCostLit.2 : α)", "Num:Cost"
+        if len(segs) == 1 and segs[0] in UNIT_CONSTS:
+            self.imports.add("Compass.Model.Units")
+            return UNIT_CONSTS[segs[0]][0], ("Unit", UNIT_CONSTS[segs[0]][1])
+        if len(segs) == 2 and segs[0] in UNITS and re.fullmatch(r"[A-Z]\w*", segs[1]):
+            self.imports.add("Compass.Model.Units")
+            return f"({segs[0]}.{segs[1][0].lower() + segs[1][1:]} : {segs[0]})", ("Unit", segs[0])
         rv = self.resolve_variant(segs)
         if rv:
             en, v = rv
@@ -922,7 +1056,7 @@ class Ctx:
             if e[1] in ("==", "!="):
                 if not (is_uint(t) or is_sint(t) or t == "Bool" or t == "Duration"):
                     refuse(f"{e[1]} on {t}")
-            elif not (is_uint(t) or is_sint(t) or t in ("Num", "Duration")):
+            elif not (is_uint(t) or is_sint(t) or is_num(t) or t == "Duration"):
                 refuse(f"{e[1]} on {t}")
             op = {"==": "=", "!=": "≠", "<": "<", ">": ">", "<=": "≤", ">=": "≥"}[e[1]]
             return f"{a} {op} {b}"
@@ -948,7 +1082,9 @@ class Ctx:
         a, ta = self.tr(e[2], env)
         b, tb = self.tr(e[3], env)
         t = self.unify(ta, tb, op)
-        if t == "Num":
+        if is_num(t):
+            if op == "%":
+                refuse("% on floats")
             return f"({a} {op} {b})", t
         if t == "IntLit":
             refuse("arithmetic on two literals")
@@ -975,9 +1111,9 @@ class Ctx:
         wrappers = {t for t in NUMTYPES if t != "f64"} | {t + "::new" for t in NUMTYPES} | {t + "::from" for t in NUMTYPES}
         if name in wrappers and len(args) == 1:
             x, t = self.tr(args[0], env)
-            if t != "Num":
+            if not is_num(t):
                 refuse(f"{name} of {t}")
-            return x, t
+            return x, "Num:" + segs[0]
         if name in ("Ok", "Err", "Some"):
             refuse(f"{name}(..) outside tail position")
         refuse(f"call of {name}")
@@ -1060,10 +1196,50 @@ class Ctx:
                 refuse("collect: only into Result<Vec<_>, _>")
             return self.tr_collect(recv[1][1], recv[3][0], self.conv_type(tf[0][1][0][1][0]), env)
         r, t = self.tr(recv, env)
+        if t[0] == "Struct" and (t[1], name) in self.fn_table:
+            lname, ps, rt, hs = self.fn_table[(t[1], name)]
+            if not hs or len(ps) != len(args) or rt[0] == "Opt":
+                refuse(f"call of {t[1]}::{name}: shape")
+            xs = []
+            for (pn, pt), a in zip(ps, args):
+                x, ta = self.tr(a, env)
+                self.unify(ta, pt, f"argument of {name}")
+                xs.append(x)
+            return f"({lname} {r}" + "".join(" " + x for x in xs) + ")", rt
+        # signed integer clamp with constant bounds lo <= hi (otherwise it panics): the std definition
+        if name == "clamp" and len(args) == 2 and is_sint(t):
+            lo, hi = const_int(args[0]), const_int(args[1])
+            if lo is None or hi is None or lo > hi:
+                refuse("clamp: bounds are not constants with min <= max")
+            for b in (lo, hi):
+                if not -2 ** (SIGNED[t] - 1) <= b < 2 ** (SIGNED[t] - 1):
+                    refuse("clamp: bound out of the type's range")
+            return f"(let x_ := {r}; if x_ < ({lo}) then ({lo}) else if x_ > ({hi}) then ({hi}) else x_)", t
         if name in ("clone", "to_owned") and not args:
             return r, t
-        if name in ("as_f64", "into_inner") and not args and t == "Num":
-            return r, t
+        if name in ("as_f64", "into_inner") and not args and is_num(t):
+            return r, "Num:f64"
+        # f64::clamp(lo, hi) with literal bounds lo <= hi (otherwise it can panic): the std definition
+        if name == "clamp" and len(args) == 2 and is_num(t) and args[0][0] == "float" and args[1][0] == "float":
+            if Fraction(args[0][1].replace("_", "").replace("f64", "")) > Fraction(args[1][1].replace("_", "").replace("f64", "")):
+                refuse("clamp with min > max")
+            lo, _ = self.tr(args[0], env)
+            hi, _ = self.tr(args[1], env)
+            return f"(let x_ := {r}; if x_ < {lo} then {lo} else if x_ > {hi} then {hi} else x_)", t
+        # unit.convert(&value, &target)
+        if name == "convert" and len(args) == 2 and t[0] == "Unit":
+            v, tv = self.tr(args[0], env)
+            u, tu = self.tr(args[1], env)
+            if tu != t or not is_num(tv):
+                refuse(f"convert({tv}, {tu}) on {t}")
+            return f"({t[1]}.convert {r} {u} {v})", tv
+        # (a, b).into(): resolved through the From impls translated in the same file
+        if name == "into" and not args and t[0] == "Prod" and all(is_num(x) for x in t[1]):
+            key = tuple(x[4:] for x in t[1])
+            if key not in self.into_table:
+                refuse(f"no translated From<{key}> impl for .into()")
+            fn, res = self.into_table[key]
+            return f"({fn} {r})", "Num:" + res
         if name == "is_empty" and not args and t[0] == "List":
             return f"({r}.isEmpty)", "Bool"
         if name == "len" and not args and t[0] == "List":
@@ -1171,6 +1347,21 @@ class Ctx:
         self.aux.append((aux, text, recursive))
         return f"({aux}{capargs} {xs} {init})", rt
 
+    def tr_match_option(self, e, env, arm_fn):
+        """`match opt { Some(x) => a, None => b }` over an Option value; arm_fn returns (text, type)"""
+        x, t = self.tr(e[1], env)
+        if t[0] != "Option":
+            refuse(f"match on a value of type {t}")
+        some_arm = [(p, b) for p, b in e[2] if p[0] == "tstruct" and p[1] == ["Some"] and len(p[2]) == 1 and p[2][0][0] in ("bind", "wild")]
+        none_arm = [(p, b) for p, b in e[2] if p[0] == "path" and p[1] == ["None"]]
+        if len(e[2]) != 2 or len(some_arm) != 1 or len(none_arm) != 1:
+            refuse("match on an Option: arms other than Some(x) / None")
+        env2 = dict(env)
+        lp = self.bind_pat(some_arm[0][0][2][0], t[1], env2)
+        a, ta = arm_fn(some_arm[0][1], env2)
+        b, tb = arm_fn(none_arm[0][1], env)
+        return f"(match {x} with | some {lp} => {a} | none => {b})", self.unify(ta, tb, "match arms")
+
     # --- match on self
     def tr_match(self, e, env, arm_fn):
         s = e[1]
@@ -1261,7 +1452,9 @@ class Ctx:
             c = self.tr_prop(e[1], env)
             g = self.take_guards(mark)
             return self.wrap(g, f"(if {c} then {self.tail(e[2], env)} else {self.tail(e[3], env)})")
-        if k == "match":
+        if k == "match" and not (canon(e[1]).lstrip("*&") == "self" and self.impl in ENUMS):
+            pass
+        elif k == "match":
             arms = self.tr_match(e, env, lambda x, en: self.tail(x, en))
             return "(match self with\n    " + "\n    ".join(arms) + ")"
         if k == "call" and e[1][0] == "path" and e[1][1] in (["Ok"], ["Err"]):
@@ -1290,12 +1483,49 @@ class Ctx:
         return self.wrap(g, x)
 
     # --- a whole function
+    def translate_arms(self, toks, body, env):
+        """`match self { Enum::V(pat) => body, … }` over an enum the model shapes differently: one definition per
+        variant, `<Enum>_<fn>_<Variant> (arg0 : field type) … (the function's parameters)`"""
+        if not (body[0] == "block" and all(st[0] == "use" for st in body[1]) and body[2] is not None
+                and body[2][0] == "match" and canon(body[2][1]).lstrip("*&") == "self"):
+            refuse("arms mode: the body is not a single match on self")
+        decl = parse_enum(toks, self.impl)
+        arms = {}
+        for p, b in body[2][2]:
+            if p[0] not in ("path", "tstruct") or len(p[1]) != 2 or self.aliases.get(p[1][0], p[1][0]) != self.impl:
+                refuse("arms mode: arm pattern")
+            if p[1][1] in arms or p[1][1] not in decl:
+                refuse(f"arms mode: arm {p[1][1]}")
+            arms[p[1][1]] = (p, b)
+        if set(arms) != set(decl):
+            refuse("arms mode: the arms are not exactly the declared variants")
+        psig = "".join(f" ({self.name(n)} : {self.lean_type(t)})" for n, t in self.params if t is not None)
+        out = ""
+        for v in decl:
+            p, b = arms[v]
+            subpats = p[2] if p[0] == "tstruct" else []
+            if len(subpats) != len(decl[v]) or any(not f.isdigit() for f, _ in decl[v]):
+                refuse(f"arms mode: pattern of {v}")
+            env2 = dict(env)
+            sig, lets = "", ""
+            for i, ((_, ft), q) in enumerate(zip(decl[v], subpats)):
+                t = self.conv_type(ft)
+                sig += f" (arg{i} : {self.lean_type(t)})"
+                lets += f"let {self.bind_pat(q, t, env2)} := arg{i}; "
+            text = self.tail(b, env2)
+            if self.guards or self.aux:
+                refuse("arms mode: partial operations / folds")
+            out += (f"/-- the `{v}` arm of `{self.impl}::{self.fn}` as it stands in `{self.cfg['file']}` -/\n"
+                    f"def {self.lean_name}_{v}{sig}{psig} : {self.lean_type(self.ret)} :=\n  ({lets}{text})\n\n")
+        return out
+
     def translate(self):
         path = os.path.join(self.repo, self.cfg["file"])
         with open(path) as f:
             toks = tokenize(f.read())
-        has_self, params, ret, body = parse_fn(toks, self.impl, self.fn)
+        has_self, params, ret, body = parse_fn(toks, self.impl_find, self.fn)
         self.ret_declared = ret
+        self.has_self = has_self
         self.params = [(n, (None if n in self.cfg.get("drop", []) else self.conv_type(t))) for n, t in params]
         self.recursive_calls = 0
         env = {n: t for n, t in self.params if t is not None}
@@ -1304,9 +1534,16 @@ class Ctx:
         self.ret = rt if rt[0] == "Opt" or not self.opt else ("Opt", rt)
         sig = ""
         if has_self:
-            if self.impl not in ENUMS:
-                refuse("self of a type that is not a configured enum")
-            sig += f" (self : {self.lean_type(('Enum', self.impl))})"
+            if self.impl in STRUCTS:
+                self.struct_decl(self.impl)
+                env["self"] = ("Struct", self.impl)
+                sig += f" (self : {self.lean_type(('Struct', self.impl))})"
+            elif self.cfg.get("arms"):
+                pass
+            elif self.impl not in ENUMS:
+                refuse("self of a type that is not a configured enum or struct")
+            else:
+                sig += f" (self : {self.lean_type(('Enum', self.impl))})"
         for n, t in self.params:
             if t is not None:
                 sig += f" ({self.name(n)} : {self.lean_type(t)})"
@@ -1315,11 +1552,14 @@ class Ctx:
             for st in body[1]:
                 self.aliases[st[2]] = st[1][-1]
             self.top_arms = body[2][2]
+        if self.cfg.get("arms"):
+            return self.translate_arms(toks, body, env)
         text = self.tail(body, env)
         if self.guards:
             refuse("internal: guards left over")
         main = f"def {self.lean_name}{sig} : {self.lean_type(self.ret)} :=\n  {text}\n"
-        doc = (f"/-- `{(self.impl + '::') if self.impl else ''}{self.fn}` as it stands in `{self.cfg['file']}` -/\n")
+        label = self.cfg.get("label") or ((self.impl + "::" if self.impl else "") + self.fn)
+        doc = (f"/-- `{label}` as it stands in `{self.cfg['file']}` -/\n")
         rec_aux = [a for a in self.aux if a[2]]
         out = "".join(a[1] + "\n" for a in self.aux if not a[2])
         if rec_aux:
@@ -1329,27 +1569,32 @@ class Ctx:
         return out
 
 
-def generate(repo):
-    """(text of Gen/Fns.lean, [names translated], [(name, reason) not recognised])"""
-    blocks, imports, done, skipped = [], {"Compass.Model.Num"}, [], []
-    for cfg in FUNCS:
-        label = (cfg["impl"] + "::" if cfg.get("impl") else "") + cfg["fn"]
+def generate_file(repo, owner, cfgs):
+    """(text of Gen/Fns<owner>.lean, [names translated], [(name, reason) not recognised])"""
+    blocks, imports, done, skipped, into_table, fn_table = [], {"Compass.Model.Num"}, [], [], {}, {}
+    for cfg in cfgs:
+        label = cfg.get("label") or ((cfg["impl"] + "::" if cfg.get("impl") else "") + cfg["fn"])
         try:
             c = Ctx(cfg, repo)
+            c.into_table = into_table
+            c.fn_table = fn_table
             text = c.translate()
             blocks.append(text)
             imports |= c.imports
             done.append(label)
+            fn_table[(cfg.get("impl"), cfg["fn"])] = (c.lean_name, c.params, c.ret, c.has_self)
+            if cfg.get("into"):
+                into_table[tuple(cfg["into"][0])] = (c.lean_name, cfg["into"][1])
         except NotRecognised as ex:
             skipped.append((label, str(ex)))
             blocks.append(f"-- NOT RECOGNISED: {label} ({ex})\n")
-        except (OSError, IndexError, KeyError, ValueError) as ex:
+        except (OSError, IndexError, KeyError, ValueError, TypeError) as ex:
             skipped.append((label, f"{type(ex).__name__}: {ex}"))
             blocks.append(f"-- NOT RECOGNISED: {label} ({type(ex).__name__}: {ex})\n")
     out = ["-- GENERATED by tools/gen_fns.py (called from tools/gen_model.py) from /repo sources — do not edit",
-           "-- function bodies of the Rust source, re-translated on every run; see the header of tools/gen_fns.py",
-           "-- for the conventions (number newtypes are α, unsigned integers are Nat, Result is Option, folds are",
-           "-- auxiliary recursive functions).  Tied to the hand-written model by the `gen_*_eq` theorems."]
+           f"-- function bodies of the Rust source that property {owner} relies on, re-translated on every run; see the",
+           "-- header of tools/gen_fns.py for the conventions (number newtypes are α, unsigned integers are Nat, Result is",
+           f"-- Option, folds are auxiliary recursive functions).  Tied to the model by the `gen_*_eq` theorems of Props/{owner}.lean."]
     out += [f"import {i}" for i in sorted(imports)]
     out += ["", "set_option linter.unusedVariables false", "", "namespace Compass", "namespace Gen", "",
             "variable {α : Type} [Add α] [Sub α] [Mul α] [Div α] [Neg α] [LT α] [LE α] [DecidableLT α] [DecidableLE α] [Lit α]",
@@ -1360,14 +1605,25 @@ def generate(repo):
 
 
 def main(repo, write_if_changed):
-    text, done, skipped = generate(repo)
-    ch = write_if_changed(OUT, text)
-    msg = (f"function translator: Fns.lean {'rewritten' if ch else 'unchanged'}, {len(done)} of {len(FUNCS)} functions translated"
-           + (": " + ", ".join(done) if done else ""))
-    print(msg)
-    for label, why in skipped:
+    """one generated file per owning property, so that a function of one property that is not recognised (or whose
+    translation does not elaborate) cannot break the Props file of another property"""
+    owners = []
+    for cfg in FUNCS:
+        if cfg["owner"] not in owners:
+            owners.append(cfg["owner"])
+    all_done, all_skipped, changed = [], [], []
+    for owner in owners:
+        cfgs = [c for c in FUNCS if c["owner"] == owner]
+        text, done, skipped = generate_file(repo, owner, cfgs)
+        if write_if_changed(os.path.join(OUT_DIR, f"Fns{owner}.lean"), text):
+            changed.append(f"Fns{owner}.lean")
+        all_done += [f"{owner}:{d}" for d in done]
+        all_skipped += [(f"{owner}:{l}", w) for l, w in skipped]
+    print(f"function translator: {len(all_done)} of {len(FUNCS)} functions translated into Gen/Fns<prop>.lean for "
+          f"{', '.join(owners)} ({'rewritten: ' + ', '.join(changed) if changed else 'all unchanged'})")
+    for label, why in all_skipped:
         print(f"function translator: NOT recognised: {label} — {why}")
-    return done, skipped
+    return all_done, all_skipped
 
 
 if __name__ == "__main__":
